@@ -814,7 +814,7 @@ pub fn run(ctx: &Ctx) -> Outcome {
     }
     let rot = (ctx.seed as usize) % items.len().max(1);
     items.rotate_left(rot);
-    let wall_a = ctx.opts.get("wall_a").and_then(|v| v.parse::<f64>().ok()).unwrap_or(ctx.tier.pick(27.0, 420.0));
+    let wall_a = ctx.opts.get("wall_a").and_then(|v| v.parse::<f64>().ok()).unwrap_or(ctx.tier.pick(24.0, 420.0));
     let start = std::time::Instant::now();
     let results = vcore::par_map(items, ctx.workers, |_, (ty, ver, f, g)| {
         let mut acc = Acc::default();
@@ -845,8 +845,8 @@ pub fn run(ctx: &Ctx) -> Outcome {
     let mut rep = seqx::Report::default();
     let profiles: Vec<(&str, Vec<Ty>, bool, usize, f64)> = if quick {
         vec![
-            ("all-types", tys.clone(), false, 2, 8.0),
-            ("reduced", Ty::reduced().into_iter().filter(|t| tys.contains(t)).collect(), false, 3, 8.0),
+            ("all-types", tys.clone(), false, 2, 6.0),
+            ("reduced", Ty::reduced().into_iter().filter(|t| tys.contains(t)).collect(), false, 3, 6.0),
         ]
     } else {
         vec![
